@@ -70,7 +70,7 @@ def gen_on_grid(rng: random.Random, tier: str):
         pad = rng.choice(["zeros", "border", "const"])
         yield {"src": src, "tgt": tgt, "mode": rng.choice(["linear", "linear", "nearest"]), "pad": pad,
                "c": rng.choice([3.0, -1.5, 7.0]) if pad == "const" else None,
-               "seed": rng.randrange(1 << 30), "api": rng.choice(["image", "batch1", "batchN_shared", "batchN_own", "batchN_single"])}
+               "seed": rng.randrange(1 << 30), "api": rng.choice(["image", "batch1", "batchN_shared", "batchN_own", "batchN_own_single", "batchN_single"])}
 
 
 def _run_sample(c):
@@ -89,6 +89,12 @@ def _run_sample(c):
     if api == "batchN_single":
         # one shared target grid given as a single Grid (values only; the per-item grid count is C04/C19's business)
         b = ImageBatch(torch.stack([decoy, data]), gs)
+        out = b.sample(gt, mode=c["mode"], padding=padding)
+        return out.tensor()[1, 0], out.grids()[-1], gs, gt, data
+    if api == "batchN_own_single":
+        # per-image source grids, ONE target Grid for the whole batch: every image is mapped through its own grid
+        gs0 = gs.center(gs.center() + 0.37 * gs.spacing())
+        b = ImageBatch(torch.stack([decoy, data]), [gs0, gs])
         out = b.sample(gt, mode=c["mode"], padding=padding)
         return out.tensor()[1, 0], out.grids()[-1], gs, gt, data
     if api == "batchN_shared":
@@ -222,7 +228,7 @@ def gen_itk(rng: random.Random, tier: str):
         pad = rng.choice(["zeros", "border", "const"])
         yield {"src": src, "tgt": tgt, "mode": rng.choice(["linear", "nearest"]), "pad": pad,
                "c": 5.0 if pad == "const" else None, "seed": rng.randrange(1 << 30),
-               "api": rng.choice(["image", "batch1", "batchN_shared", "batchN_own", "batchN_single"])}
+               "api": rng.choice(["image", "batch1", "batchN_shared", "batchN_own", "batchN_own_single", "batchN_single"])}
 
 
 def check_itk(c):
